@@ -23,7 +23,9 @@ from vf import lib_potopts as P
 PROPERTY = "C08"
 TECHNIQUE = "runtime monitoring; metamorphic oracle on pairs of real potential builds (roll / tile / slice-mean relations)"
 RULE = ("random orthogonal cells 3-8 A with 1-12 atoms of mixed Z, positions anywhere (outside the cell, on cell faces incl. tiny negative rounding "
-        "artefacts, on pixel boundaries and pixel centres), grids 7-40 odd/even/rectangular, lobato/kirkland/peng, infinite and finite projection, "
+        "artefacts, on pixel boundaries and pixel centres; in 45 % of the cases 1-3 companion atoms of the same or another "
+        "element exactly on / in the same pixel as / within two pixels of / across the periodic boundary from another atom of "
+        "the slice), infinite projection occasionally with 1-3 grid points along one axis, grids 7-40 odd/even/rectangular, lobato/kirkland/peng, infinite and finite projection, "
         "slice thickness scalar or sequence, pixel shifts in [-2n, 2n] incl. 0-row/0-column and more than a cell, repetitions "
         "(1-3, 1-3, 1-2), real sub-pixel translations, eager and lazy, float64 and float32; in 55 % of the cases non-default "
         "constructor arguments: parametrization objects with per-element sigmas (all / some / absent elements), custom "
@@ -69,7 +71,31 @@ def _atoms_case(rng, gpts, cell, n, elements):
             elif r < 0.3:     # cell faces, incl. the tiny negative values rotations / surface builders leave behind
                 p[d] = float(rng.choice([0.0, cell[d], -0.0, -1e-17, -6e-17, -1e-13]))
         pos.append([float(v) for v in p])
-    return {"cell": [float(c) for c in cell], "symbols": [str(rng.choice(elements)) for _ in range(n)], "positions": pos}
+    symbols = [str(rng.choice(elements)) for _ in range(n)]
+    # coincident / nearly coincident atoms: the bilinear footprints (infinite projection) or the pixel disks (finite) of
+    # different atoms of one slice share grid points, also across the periodic boundary
+    if rng.random() < 0.45:
+        for _ in range(int(rng.integers(1, 4))):
+            j = int(rng.integers(0, len(pos)))
+            mode = str(rng.choice(["stacked", "same-pixel", "neighbour", "two-pixels", "boundary"]))
+            if mode == "boundary":
+                d = int(rng.integers(0, 2))
+                pos[j][d] = float(rng.uniform(0.0, 0.5) * dx[d])
+            q = list(pos[j])
+            for d in range(2):
+                if mode == "same-pixel":
+                    q[d] += float(rng.uniform(-0.5, 0.5) * dx[d])
+                elif mode == "neighbour":
+                    q[d] += float(rng.choice([-1.0, 1.0]) * rng.uniform(0.5, 1.5) * dx[d])
+                elif mode == "two-pixels":
+                    q[d] += float(rng.uniform(-2.0, 2.0) * dx[d])
+                elif mode == "boundary":
+                    q[d] = float(pos[j][d] - rng.uniform(0.1, 1.5) * dx[d]) if d == 0 or rng.random() < 0.5 else q[d]
+            if rng.random() < 0.25:
+                q[2] = float(q[2] + rng.uniform(-1, 1) * 1e-3)        # nearly the same height
+            pos.append([float(v) for v in q])
+            symbols.append(symbols[j] if rng.random() < 0.7 else str(rng.choice(elements)))
+    return {"cell": [float(c) for c in cell], "symbols": symbols, "positions": pos}
 
 
 def _thickness(rng, height):
@@ -94,6 +120,8 @@ def gen(rng, tier):
     gpts = G.rand_gpts(rng, 7, hi)
     if kind == "tile":
         gpts = G.rand_gpts(rng, 7, 20)
+    if proj == "infinite" and rng.random() < 0.08:
+        gpts[int(rng.integers(0, 2))] = int(rng.integers(1, 4))      # degenerate axes: 1-3 grid points
     cell = [float(rng.uniform(3.0, 8.0)), float(rng.uniform(3.0, 8.0)), float(rng.uniform(1.5, 6.0))]
     nmax = 12 if proj == "infinite" else 5
     elements = G.ELEMENTS if proj == "infinite" else (LIGHT if rng.random() < 0.7 else G.ELEMENTS)
@@ -143,6 +171,20 @@ def fixed_cases(tier):
                         "slice_thickness": [0.8, 1.2, 1.0], "precision": "float64", "lazy": lazy, "reps": [2, 3, 2]})
     out.append({"kind": "subpixel", "cell": base, "gpts": [9, 14], "projection": "infinite", "parametrization": "peng",
                 "slice_thickness": 0.7, "precision": "float64", "lazy": False, "translation": [0.1234, -7.77]})
+    # close pairs of one element and of two elements in one slice: same pixel, neighbouring pixels, exactly stacked, across
+    # the periodic boundary (cell 4 x 5, pixels 0.5 x 0.5)
+    pairs = {"cell": [4.0, 5.0, 3.0], "symbols": ["Si", "Si", "C", "C", "Au", "Au", "O", "Si", "O", "O"],
+             "positions": [[1.1, 1.2, 0.5], [1.3, 1.45, 0.5], [2.6, 3.1, 0.6], [3.1, 3.4, 0.6], [2.0, 2.0, 1.5], [2.0, 2.0, 1.5],
+                           [0.1, 4.2, 2.5], [3.8, 4.3, 2.5], [3.9, 4.9, 2.4], [0.15, 0.1, 2.4]]}
+    out.append({"kind": "subpixel", "cell": pairs, "gpts": [8, 10], "projection": "infinite", "parametrization": "lobato",
+                "slice_thickness": 1.0, "precision": "float64", "lazy": False, "translation": [0.19, -0.33]})
+    out.append({"kind": "subpixel", "cell": pairs, "gpts": [1, 10], "projection": "infinite", "parametrization": "kirkland",
+                "slice_thickness": 1.0, "precision": "float64", "lazy": True, "translation": [1.23, 0.21]})
+    for proj in ("infinite", "finite"):
+        out.append({"kind": "shift", "cell": pairs, "gpts": [8, 10], "projection": proj, "parametrization": "lobato",
+                    "slice_thickness": 1.0, "precision": "float64", "lazy": False, "shift": [3, -4]})
+        out.append({"kind": "tile", "cell": pairs, "gpts": [8, 10], "projection": proj, "parametrization": "lobato",
+                    "slice_thickness": 1.0, "precision": "float64", "lazy": False, "reps": [2, 2, 1]})
     # non-default constructor arguments: atoms next to the cell faces, so anything that is not periodic shows
     sig = {"Si": 0.3, "C": 0.2, "Au": 0.15}
     quad = {"type": "quadrature", "cutoff_tolerance": 1e-3, "taper": 0.7, "integration_step": 0.05, "quad_order": 4,
